@@ -262,9 +262,14 @@ structure Ctx where
   Hs : Hashes
   V : Verifier
   eciOk : Bytes → EciCheck
+  /-- Does `SequencerBlock::try_from_raw` verify the per-rollup proofs?  `false` is the code as it
+      is (finding FB1); `true` is the code with `/verif/proposed_fixes/FB1.diff` applied. -/
+  fullChecksRts : Bool := false
 
-def rfcCtx (Hs : Hashes) (eciOk : Bytes → EciCheck) : Ctx := ⟨Hs, rfcV Hs, eciOk⟩
-def flatCtx (Hs : Hashes) (eciOk : Bytes → EciCheck) : Ctx := ⟨Hs, flatV Hs, eciOk⟩
+def rfcCtx (Hs : Hashes) (eciOk : Bytes → EciCheck) (fix : Bool := false) : Ctx :=
+  { Hs := Hs, V := rfcV Hs, eciOk := eciOk, fullChecksRts := fix }
+def flatCtx (Hs : Hashes) (eciOk : Bytes → EciCheck) (fix : Bool := false) : Ctx :=
+  { Hs := Hs, V := flatV Hs, eciOk := eciOk, fullChecksRts := fix }
 
 /-- `proof.verify(leaf, root)`: hashes the leaf first. -/
 def verifyLeaf (c : Ctx) (π : Proof) (leaf root : Bytes) : Outcome Bool := c.V π (c.Hs.H.leaf leaf) root
@@ -361,6 +366,13 @@ def idsIncluded (c : Ctx) (ids : List Bytes) (π : Proof) (dataHash : Bytes) : O
 def rtMatchesRoot (c : Ctx) (id : Bytes) (txs : List Bytes) (π : Proof) (root : Bytes) : Outcome Bool :=
   verifyLeaf c π (rollupLeaf c.Hs id txs) root
 
+/-- The `for rollup_transactions in rollup_transactions.values()` loop. -/
+def checkRts (c : Ctx) (root : Bytes) : List Rt → Outcome (Except Err Unit)
+  | [] => .value (.ok ())
+  | r :: rest =>
+    andThen (guardV (rtMatchesRoot c r.id r.txs r.proof root) (Err.txsForIdNotInBlock r.id)) fun _ =>
+    checkRts c root rest
+
 /-- `SequencerBlock::try_from_raw`. -/
 def fullFromRaw (c : Ctx) (r : BlockRaw) : Outcome (Except Err Block) :=
   andThen (liftE (if r.blockHash.length = 32 then .ok r.blockHash else .error Err.blockHash)) fun bh =>
@@ -374,6 +386,8 @@ def fullFromRaw (c : Ctx) (r : BlockRaw) : Outcome (Except Err Block) :=
   let rollups := imCollect rts
   andThen (guardV (verifyLeaf c txsProof (c.Hs.sha header.txsRoot) header.dataHash) Err.invalidTxsRoot) fun _ =>
   andThen (guardV (txsIncluded c rollups txsProof header.dataHash) Err.txsNotInBlock) fun _ =>
+  andThen (if c.fullChecksRts then mapErr (fun _ => Err.txsNotInBlock) (checkRts c header.txsRoot rollups)
+           else .value (.ok ())) fun _ =>
   andThen (guardV (idsIncluded c (rollups.map (·.id)) idsProof header.dataHash) Err.idsNotInBlock) fun _ =>
   andThen (liftE (decodeUch r.uch)) fun uch =>
   andThen (mapErr Err.eci (decodeEciOpt c header.dataHash r.eci)) fun eci =>
@@ -411,13 +425,6 @@ def Filtered.content (b : Filtered) : List (Bytes × List Bytes) := b.rollups.ma
 
 def decodeIds (l : List Bytes) : Except Err (List Bytes) :=
   if l.all (fun h => h.length == 32) then .ok l else .error .rollupId
-
-/-- The `for rollup_transactions in rollup_transactions.values()` loop. -/
-def checkRts (c : Ctx) (root : Bytes) : List Rt → Outcome (Except Err Unit)
-  | [] => .value (.ok ())
-  | r :: rest =>
-    andThen (guardV (rtMatchesRoot c r.id r.txs r.proof root) (Err.txsForIdNotInBlock r.id)) fun _ =>
-    checkRts c root rest
 
 /-- `FilteredSequencerBlock::try_from_raw`. -/
 def filteredFromRaw (c : Ctx) (r : FilteredRaw) : Outcome (Except Err Filtered) :=
